@@ -63,7 +63,7 @@ from apischema.serialization.serialized_methods import (
     get_serialized_methods,
 )
 from apischema.type_names import TypeNameFactory, get_type_name
-from apischema.types import AnyType, Undefined, UndefinedType
+from apischema.types import AnyType, NoneType, Undefined, UndefinedType
 from apischema.typing import get_args, get_origin, is_typed_dict, is_union
 from apischema.utils import (
     context_setter,
@@ -550,7 +550,12 @@ class SerializationSchemaBuilder(
                 AliasedStr(serialized.alias),
                 serialized.func.__name__,
                 serialized.ordering,
-                not is_union_of(types["return"], UndefinedType),
+                not is_union_of(types["return"], UndefinedType)
+                # a None result is skipped with exclude_none, like a None field
+                and not (
+                    settings.serialization.exclude_none
+                    and is_union_of(types["return"], NoneType)
+                ),
                 full_schema(
                     self.visit_with_conv(types["return"], serialized.conversion),
                     get_method_schema(tp, serialized),
